@@ -6,6 +6,7 @@ R9.2  ambient values (id(), hash(), clocks, random, uuid, cwd, environment, temp
       content or names: each source site is classified; id()-derived names need a guard-correlation proof
 R9.3  process-global mutable state written on the generation path is enumerated
 R9.4  the diff treats a file that would be generated but is missing from the existing tree as a difference
+R9.15 a decision about the file being rendered compares its own directory, not "any ancestor is called models" (output independent of location)  [= R13.9]
 R9.5  differences raise (every _show_diffs result feeds the raise)  [shared with C10/R10.5]
 R9.8  compare-only generation compares every directory it would write: the client package always, the core for every
       layout in which it is not contained in the client package (guard evaluated by the path algebra of C11)  [= R10.6]
@@ -94,6 +95,11 @@ def run(repo: Repo, rep: Report, tier: str) -> None:
     live = [m for m in repo.import_closure(["generator.client_generator"]) if m not in RUNTIME_ONLY]
     res = Resolver(repo)
     st = SetTypes(repo, res)
+    # R9.15: decisions about the file being rendered look at its own package directory, never at "some ancestor directory is called X"
+    # (the same document would give other bytes below /x/models/ than below /x/work/)                                       [= R13.9]
+    from rules.c13 import rule_self_import_compares_the_package
+
+    rule_self_import_compares_the_package(repo, rep, "R9.15")
 
     # ---------------------------------------------------------------- R9.1
     n_iter = 0
@@ -247,7 +253,9 @@ def run(repo: Repo, rep: Report, tier: str) -> None:
     # ---------------------------------------------------------------- R9.5 / R9.6 / R9.7 on generate()
     from rules import c10
 
-    gen = repo.func(c10.GEN)
+    from rules.c10 import generation_function as _genfn
+
+    gen = _genfn(repo)
     from sa.flatten import flatten as _flgen
 
     # the comparison step may have been extracted into a helper of the class (`if self._differs_from_existing(...)`): write it out
